@@ -267,6 +267,17 @@ def component_state_copies(quick):
                     c.update(lnk_max=4.0, dlnk=0.2)
                     fr = Transfer(**dict(copy.deepcopy(basec), lnk_max=4.0, dlnk=0.2)).power
                     ok2 = c.power.shape == fr.shape and np.allclose(c.power, fr, rtol=1e-9)
+                    # ... and the object that was copied goes on working: a grid change on the original afterwards gives a fresh object's power
+                    try:
+                        o.update(lnk_min=-7.0, lnk_max=3.5)
+                        po = o.power
+                        fo = Transfer(**dict(copy.deepcopy(basec), lnk_min=-7.0, lnk_max=3.5)).power
+                        if not (po.shape == fo.shape and np.allclose(po, fo, rtol=1e-9)):
+                            viol.append({"key": f"Transfer/CAMB/{how}/original-after-copy", "what": f"after {how} of a computed CAMB transfer, a grid change on the original gives a power spectrum that differs from a fresh object's",
+                                         "replay": {"kind": "c15", "script": script + ["o.update(lnk_min=-7.0, lnk_max=3.5); o.power vs fresh"]}})
+                    except Exception as e2:
+                        viol.append({"key": f"Transfer/CAMB/{how}/original-after-copy/raises", "what": f"after {how} of a computed CAMB transfer, update(lnk_min=-7.0, lnk_max=3.5) and power on the ORIGINAL fail: {type(e2).__name__}: {str(e2)[:120]}",
+                                     "replay": {"kind": "c15", "script": script + ["o.update(lnk_min=-7.0, lnk_max=3.5); o.power"]}})
                 except Exception as e:
                     viol.append({"key": f"Transfer/CAMB-eh-extrapolation/{how}/raises", "what": f"{how} of a computed CAMB transfer with extrapolate_with_eh=True, then a grid change on the copy, fails: {type(e).__name__}: {str(e)[:120]}", "replay": {"kind": "c15", "script": script}})
                     continue
@@ -361,8 +372,13 @@ def camb_user_params(quick):
             if not (pc2.shape == fc2.shape and np.allclose(pc2, fc2, rtol=1e-9, atol=0)):
                 viol.append({"key": f"Transfer/CAMB-user-params/{how}/copy-after-grid-change", "what": f"{how} of a CAMB transfer with user CAMBparams (high_precision={hp_}, k_per_logint={kpl_}, dark energy w={w_}), then update(lnk_max=4) on the copy: power differs from a fresh object's by up to {float(np.max(np.abs(pc2 / fc2 - 1))) if pc2.shape == fc2.shape else 'shape'}",
                              "replay": {"kind": "c15", "script": [f"o = Transfer(transfer_model='CAMB', transfer_params={{'camb_params': CAMBparams(Transfer.high_precision={hp_}, Transfer.k_per_logint={kpl_}, set_dark_energy(w={w_}))}}); o.power", f"c = {how}(o); c.update(cosmo_params={{'Om0':0.25}}); c.update(lnk_max=4.0); c.power"]}})
-            o.update(dlnk=0.2)
-            po = o.power
+            try:
+                o.update(dlnk=0.2)
+                po = o.power
+            except Exception as e_:
+                viol.append({"key": f"Transfer/CAMB-user-params/{how}/original/raises", "what": f"after {how} of a CAMB transfer with user CAMBparams (power read before), update(dlnk=0.2) and power on the ORIGINAL fail: {type(e_).__name__}: {str(e_)[:120]}",
+                             "replay": {"kind": "c15", "script": [f"o = Transfer(transfer_model='CAMB', transfer_params={{'camb_params': CAMBparams(...)}}, ...); o.power", f"c = {how}(o); c.update(cosmo_params={{'Om0': 0.25}}); c.power", "o.update(dlnk=0.2); o.power"]}})
+                continue
             n += 1
             fo = Transfer(transfer_params={"camb_params": mk()}, **dict(base, dlnk=0.2)).power
             fc = Transfer(transfer_params={"camb_params": mk()}, cosmo_params={"Om0": 0.25}, **base).power
